@@ -23,6 +23,8 @@ PROFILES = [
     ("text-nonascii", dict(kind="text", non_ascii=0.4, regex_delimited=False)),
     ("handwritten", None),
     ("constraints", "constraints"),
+    ("selectors", "selectors"),
+    ("consgen", "consgen"),
 ]
 HANDWRITTEN = [
     "<start> ::= ('a' 'b')* 'c'\n", "<start> ::= ('a' | 'b')+ 'c'\n", "<start> ::= 'a'{2,} 'c'\n", "<start> ::= 'a'{,3} 'c'\n", "<start> ::= ('a' 'b'){2} 'c'\n",
@@ -44,6 +46,22 @@ CONSTRAINT_FORMS = [
 ]
 CGRAMMAR = "<start> ::= <a> (',' <a>)*\n<a> ::= <d>+\n<d> ::= '0' | '1' | '2'\n"
 CWORDS = ["0", "1", "12", "2,0", "10,21,2", "222", "0,0", "1,2,0,1"]
+
+
+def selector_forms(rng, k):
+    """constraints whose verdict depends on exactly which nodes an index / slice / path selector picks"""
+    out = []
+    for _ in range(k):
+        base = rng.choice(["<a>", "<start>", "<d>", "<start>.<a>", "<a>..<d>", "<start>..<d>", "<a>.<d>"])
+        r = rng.random()
+        if r < 0.25:
+            sel = f"{base}[{rng.choice([0, 1, -1, 2])}]"
+        else:
+            b = lambda: rng.choice(["", "", "0", "1", "2", "-1", "3"])
+            sel = f"{base}[{b()}:{b()}]" if rng.random() < 0.7 else f"{base}[{b()}:{b()}:{rng.choice(['1', '2', '', '-1'])}]"
+        form = rng.choice(["len({s}) == {n}", "len({s}) >= {n}", "str({s}) != '{t}'", "len(str({s})) == {n}", "str({s}) == '{t}'", "str({s}).startswith('{t}')"])
+        out.append(form.format(s=sel, n=rng.choice([0, 0, 1, 2]), t=rng.choice(["", "0", "1", "12", "2"])))
+    return out
 
 
 def cases(tier, seed):
@@ -136,6 +154,17 @@ def run_case(c):
         k = rng.randint(1, 3)
         constraints = rng.sample(CONSTRAINT_FORMS, k)
         text = CGRAMMAR + "".join("where " + x + "\n" for x in constraints)
+    elif c["profile"] == "selectors":
+        constraints = selector_forms(rng, rng.randint(1, 3))
+        text = CGRAMMAR + "".join("where " + x + "\n" for x in constraints)
+    elif c["profile"] == "consgen":
+        from vf.gen import consgen
+        from vf.ref import constraint_sem as cs_
+        gname = rng.choice(sorted(consgen.GRAMMARS))
+        gtext, info = consgen.GRAMMARS[gname]
+        constraints = [cs_.to_text(consgen.rand_constraint(rng, info, depth=rng.choice([0, 0, 1, 2]))) for _ in range(rng.randint(1, 2))]
+        text = gtext + "".join("where " + x + "\n" for x in constraints)
+        cwords = consgen.WORDS[gname]
     else:
         prof = dict(PROFILES)[c["profile"]]
         rules, feats, model = specgen.random_grammar(random.Random(c["gseed"]), specgen.Profile(**prof))
@@ -219,10 +248,19 @@ def run_case(c):
     cons2 = [x for x in s2.constraints if type(x).__name__ != "RepetitionBoundsConstraint"]
     if len(cons1) != len(cons2):
         violations.append({"what": f"{len(cons1)} constraints printed, {len(cons2)} read back; printed: {printed[-300:]!r}", "mech": mech_for("constraints"), "spec": text, "printed": printed})
-    elif cons1 and c["kind"] == "gen" and c["profile"] == "constraints":
-        f1 = Fandango(text, use_stdlib=False)
-        f2 = Fandango(printed, use_stdlib=False)
-        for w in CWORDS:
+    elif cons1 and c["kind"] == "gen" and c["profile"] in ("constraints", "selectors", "consgen"):
+        try:
+            f1 = Fandango(text, use_stdlib=False)
+        except Exception as e:
+            # the full loader checks more than the reader (e.g. selectors that cannot match): the written spec is not a valid subject
+            return {"status": "ok", "stats": {"source_spec_rejected_by_loader": 1, "rejected:" + type(e).__name__: 1}, "nontrivial": False}
+        try:
+            f2 = Fandango(printed, use_stdlib=False)
+        except Exception as e:
+            violations.append({"what": f"the written spec loads, its printed form is rejected by the loader: {type(e).__name__}: {str(e)[:160]}; printed: {printed[-300:]!r}",
+                               "mech": mech_for("reread"), "spec": text, "printed": printed})
+            return {"status": "violation", "violations": violations, "stats": dict(stats), "nontrivial": True, "distinct_key": c["key"]}
+        for w in (cwords if c["profile"] == "consgen" else CWORDS):
             t1 = f1.grammar.parse(w)
             t2 = f2.grammar.parse(w)
             if t1 is None or t2 is None:
